@@ -10,7 +10,8 @@ THEOREMS = ["next_seek_mix", "enumerates", "exhausted_invalid", "empty_invalid_n
             "untagged_setsym", "seek_forward", "seek_reverse", "seek_setsym", "union_exact", "filtered_exact",
             "tree_inorder", "slice_exact", "list_is_ordered_set", "allOf_exact", "anyOf_exact", "stacked_exact",
             "reopen_setsym", "reopen_empty_invalid", "reopen_stacked", "reopen_subquery_setsym",
-            "reopen_subquery_stacked", "scan_fallback_seek", "reopen_subquery_paged"]
+            "reopen_subquery_stacked", "scan_fallback_seek", "reopen_subquery_paged",
+            "interleaved_cursors_independent"]
 
 RULE = ("random cursor descriptions (every cursor constructor / provider of the library: raw and typed bolt "
         "cursors forward and reverse through TypedBucket, set index key/value cursors, related-entity, link and "
@@ -32,7 +33,11 @@ RULE = ("random cursor descriptions (every cursor constructor / provider of the 
         "shorter prefix, the siblings P+a P+b P+d, the extensions P+b\\x00 P+bz, short elements) as elements / ids / "
         "roles of every cursor kind, driven with seek-heavy scripts whose targets are the family, absent neighbours, "
         "truncations of the long targets at 62..256 bytes and short strings in turn, and as rows of the re-used runtime "
-        "symbol (long and short seeks alternating across rows); non-trivial = the "
+        "symbol (long and short seeks alternating across rows); plus M cases: 2-3 cursors ALIVE AT ONCE opened from one "
+        "*TypedBucket value (IterateStringList, IterateStringListInDirection, OpenTypedCursor, OpenSeekableCursor, OpenCursor, "
+        "both directions), one link / ref-counted link collection, one store and entity (GetRelatedEntitiesCursor, runtime "
+        "set symbols, IterateIds) in one transaction and driven by interleaved scripts (lock step, and random alternation of "
+        "Next / Seek / SeekToString, <= 8 steps; every ordered pair of bucket-level openers); non-trivial = the "
         "script has at least one operation and the cursor is valid at some point; distinct = (description, script)")
 
 
@@ -51,6 +56,8 @@ def _shape(case):
     toks = f[0].split(";") if f[0] != "X" else f[1].split(";")
     if toks[0] == "R":
         return "reuse:" + toks[1] + ":" + toks[2]
+    if toks[0] == "M":
+        return "multi:" + toks[1].replace(",", "&")
     if toks[0] == "stacked":
         return "stacked:" + toks[1]
     kinds = _desc_kinds(";".join(toks))
@@ -63,6 +70,11 @@ def nontrivial(case, impl):
     f = case.split(" ")
     if f[0] == "X":
         return ("X", case)
+    if len(f) == 2 and f[0].startswith("M;"):
+        # at least two different cursors are operated and something is valid
+        if len({t[0] for t in f[1].split(",") if t != "_"}) > 1 and any(t.startswith("v") for t in impl.split(" ")):
+            return case
+        return None
     if len(f) == 2 and f[0].startswith("R;"):
         segs = f[1].split("/")
         if len(segs) > 1 and any(not sg.endswith(":_") for sg in segs) and any(t.startswith("v") for t in impl.split(" ")):
@@ -106,6 +118,22 @@ def _candidates(case):
         return []
     desc, ops = f
     res = []
+    if desc.startswith("M;"):
+        t = desc.split(";")
+        o = [] if ops == "_" else ops.split(",")
+        for i in range(len(o)):
+            rest = o[:i] + o[i + 1:]
+            res.append(desc + " " + (",".join(rest) if rest else "_"))
+        els = [] if t[2] == "_" else t[2].split(",")
+        for j in range(len(els)):
+            rest = els[:j] + els[j + 1:]
+            res.append(";".join(t[:2] + [",".join(rest) if rest else "_"]) + " " + ops)
+        ops_l = t[1].split(",")
+        if len(ops_l) > 2:   # drop the last cursor if the script does not use it
+            last = str(len(ops_l) - 1)
+            if all(not x.startswith(last) for x in o):
+                res.append(";".join([t[0], ",".join(ops_l[:-1]), t[2]]) + " " + ops)
+        return res
     if desc.startswith("R;"):
         # drop a segment, drop one operation of a segment (the world stays as generated)
         segs = [sg.split(":") for sg in ops.split("/")]
@@ -360,7 +388,12 @@ def run(ctx, replay_cases=None):
                 hist["long:max_element_len" + _cls(el)] += 1
                 if tg > 0:
                     hist["long:max_seek_target_len" + _cls(tg)] += 1
-            if c.startswith("R;"):
+            if c.startswith("M;"):
+                st = [] if ops == "_" else ops.split(",")
+                o = [x[1:] for x in st]
+                hist["multi:cursors:%d" % len(c.split(";")[1].split(","))] += 1
+                hist["multi:switches_between_cursors"] += sum(1 for x, y in zip(st, st[1:]) if x[0] != y[0])
+            elif c.startswith("R;"):
                 segs = [sg.split(":")[1] for sg in ops.split("/")]
                 hist["reuse_segments:%d" % len(segs)] += 1
                 o = [x for sg in segs if sg != "_" for x in sg.split(",")]
